@@ -102,10 +102,10 @@ Proof. unfold two64. destruct w; cbn; lia. Qed.
 
 Lemma neg_of_small n : n < two63 -> neg_of n = (-1 - Z.of_N n)%Z.
 Proof.
-  intros H. unfold neg_of, to_i64, two63, two64 in *.
-  rewrite N.mod_small by lia.
-  destruct (N.ltb_spec (18446744073709551616 - 1 - n) 9223372036854775808); lia.
+  intros H. unfold neg_of. assert (n <? two63 = true) as -> by lia. reflexivity.
 Qed.
+Lemma clamp_i64_small n : n < two63 -> clamp_i64 n = Z.of_N n.
+Proof. intros H. unfold clamp_i64. assert (n <? two63 = true) as -> by lia. reflexivity. Qed.
 Lemma to_i64_small n : n < two63 -> to_i64 n = Z.of_N n.
 Proof. intros H. unfold to_i64. assert (n <? two63 = true) as -> by lia. reflexivity. Qed.
 
@@ -119,7 +119,7 @@ Qed.
 
 Lemma read_integer_spec neg w n rest : wfits w n ->
   run read_integer (ser (IInt neg w n) ++ rest) =
-  (inl (if neg then neg_of n else to_i64 n), rest).
+  (inl (if neg then neg_of n else clamp_i64 n), rest).
 Proof.
   intros Hf. unfold read_integer. rewrite run_bind. cbn [ser]. rewrite peek_head by auto.
   destruct neg; cbn [mint].
